@@ -118,7 +118,7 @@ def run_scratch(name, props, tier):
     dst = os.path.join(SEEDED, name)
     meta = json.load(open(os.path.join(dst, "meta.json")))
     if not props:
-        props = [meta["breaks_property"]]
+        props = meta.get("relevant_properties") or [meta["breaks_property"]]
     wt = "/root/scratch/seedrepo"
     tgt = "/root/scratch/seedtarget"
     if not os.path.exists(wt):
@@ -141,11 +141,13 @@ def run_scratch(name, props, tier):
             out = buf.getvalue()
             viol = [l for l in out.splitlines() if l.startswith("VIOLATION")]
             verdict = "DETECTED" if rc == 1 and viol else ("MISSED" if rc == 0 else "MACHINERY(rc=%s)" % rc)
+            res[p] = verdict
+            if meta.get("kind") == "benign":
+                verdict = {"DETECTED": "FALSE-ALARM", "MISSED": "SILENT(ok)"}.get(verdict, verdict)
             first = next((l for l in out.splitlines() if l.startswith("  ") and "observed" in l), "")
             print("%s %s %s: %s (%d VIOLATION lines) %s" % (name, p, tier, verdict, len(viol), first.strip()[:300]), flush=True)
             if verdict.startswith("MACHINERY"):
                 print(out[-2000:])
-            res[p] = verdict
     finally:
         sh("git checkout -- .", cwd=wt)
         shutil.rmtree(os.path.join(ROOT, "replays"), ignore_errors=True)
